@@ -66,6 +66,9 @@ class NTPServer(Service, discriminator="ntp-server"):
             self.sys_log.debug(f"{self.name}: {payload}")
             return False
         payload: NTPPacket = payload
+        if payload.ntp_reply is not None:
+            # a reply (e.g. one meant for the NTP client of this host, which shares the port) is not a request
+            return False
 
         # generate a reply with the current time
         time = datetime.now()
